@@ -135,6 +135,11 @@ class DimsCheck(Family):
             out.append({"N": N, "M": None, "dims": [-1], "exclude": None})
             out.append({"N": N, "M": None, "dims": None, "exclude": [N]})
             out.append({"N": N, "M": None, "dims": None, "exclude": [-1]})
+            out.append({"N": N, "M": None, "dims": [N], "exclude": None})
+            out.append({"N": N, "M": N, "dims": [0, N], "exclude": None})
+            out.append({"N": N, "M": None, "dims": [0, 0], "exclude": None})
+            out.append({"N": N, "M": 2, "dims": [0, 0], "exclude": None})
+            out.append({"N": N, "M": None, "dims": None, "exclude": [0, 0]})
         # a few random larger ones
         for _ in range(20 if tier == "quick" else 200):
             N = rng.randint(2, 6)
